@@ -26,7 +26,8 @@ K1_FILES = {'consts': ['GenConsts'], 'c16_translate': ['GenBounds'], 'c19_transl
             # general source translator (tools/props/src_translate.py), one generator module per area
             'src_bits_translate': ['GenSrcBits'], 'src_ring_translate': ['GenSrcRing'],
             'src_broadcast_translate': ['GenSrcBroadcast'], 'src_counters_translate': ['GenSrcCounters'],
-            'src_frame_translate': ['GenSrcFrame'], 'src_pub_translate': ['GenSrcPub'], 'src_image_translate': ['GenSrcImage']}
+            'src_frame_translate': ['GenSrcFrame'], 'src_pub_translate': ['GenSrcPub'], 'src_image_translate': ['GenSrcImage'],
+            'src_sub_translate': ['GenSrcSub']}
 
 
 def _case_key(c):
